@@ -300,6 +300,40 @@ def c13(o):
     return None
 
 
+@check('C11')
+def c11(o):
+    """An input the file supplies is never asked for or reported missing, even when its text is rejected by the validator
+    (that is reported as invalid: the run ends with InvalidInput if a line reads it)."""
+    for k in o['provided']:
+        if any(a == k for a, _ in o.get('asked', [])):
+            return f'{k} is supplied by the file (text {o["provided"][k]!r}) and was asked for'
+        if k in (o.get('unmet_inputs') or {}):
+            return f'{k} is supplied by the file (text {o["provided"][k]!r}) and is reported as needed but not supplied'
+    return None
+
+
+@check('C10')
+def c10(o):
+    """Programs whose references all resolve never end in an internal assertion, attribute/key error or unbounded recursion;
+    "not supported" only when a form that does not exist is referred to."""
+    t = o.get('raised_type') or ('RecursionError' if o.get('raised') == 'RecursionError' else None)
+    if t is None:
+        return None
+    prog = o['program']
+    unknown = False
+    for f, fd in prog.items():
+        for l, spec in fd['lines'].items():
+            for kind, key in spec:
+                kf, kb = qual(f, key).split('.')
+                if kf not in prog or (kind == 'v' and kb not in prog[kf]['lines']) or (kind != 'v' and kb not in prog[kf]['inputs']):
+                    unknown = True
+    if t in ('AssertionError', 'RecursionError', 'AttributeError', 'KeyError', 'TypeError', 'IndexError') and not unknown:
+        return f'every reference of the program resolves, yet the solve ends in {o.get("raised")}'
+    if t == 'NotImplementedError' and not unknown:
+        return f'every reference of the program resolves, yet the solve aborts with {o.get("raised")}'
+    return None
+
+
 @check('C05')
 def c05(o):
     """Same year, forms and input values => same verdict and same lines, whether a value came from the file or from a prompt,
@@ -413,6 +447,8 @@ def scenarios(seed=0, n_random=150):
                 # a provided text the validator rejects: the run must not succeed without the lines that read it
                 yield prog, requested, {**full, all_inputs[0]: 'not-a-number'}, None, None
                 yield prog, requested, {**full, all_inputs[-1]: 'not-a-number'}, None, None
+                yield prog, requested, {all_inputs[0]: 'not-a-number'}, full, None        # rejected text in the file, interactive run
+                yield prog, requested, {all_inputs[-1]: 'not-a-number'}, full, None
             blank = {k: '' for k in all_inputs}      # a blank answer is a valid answer (0 / empty text), not a refusal
             yield prog, requested, {}, blank, None
             yield prog, requested, half, blank, None
